@@ -122,7 +122,7 @@ CHECKS = {
   "and call-site obligations that exec and execBackground start the child with Dir = the script's directory and Env = the script's list plus PWD. "
   "The splitting function itself (words, '' , #, no re-splitting / re-expansion of values) is compared with a reference tokenizer written from the property text by a bounded stand-in.",
   "assumed: os.Expand applies the mapping to $NAME / ${NAME} references (its grammar is not modelled), regexp.QuoteMeta matches exactly its argument, os/exec uses the last duplicate in Env; waitOrStop, pty helpers and execpath.Look are trusted (pure); "
-  "the pointwise agreement of the env list with envMap across all assignments (lastVal) is not stated as an invariant, only the per-Setenv step; bounded: tokenizer vs reference over lines of up to 5 (quick) / 6 (thorough) tokens from a 10-token vocabulary with two variables whose values contain blanks, quotes and a $ reference",
+  "the pointwise agreement of the env list with envMap across all assignments (lastVal) is not stated as an invariant, only the per-Setenv step; bounded: tokenizer vs reference over lines of up to 5 (quick) / 6 (thorough) tokens from an 11-token vocabulary (incl. a two-byte UTF-8 letter whose second byte is 0xA0) with two variables whose values contain blanks, quotes and a $ reference",
   "contract-based deductive verification (safety, termination and call-site obligations over go/ssa; z3/cvc5) plus a labelled bounded stand-in for the tokenizer's functional behaviour"),
  "C03": ("5 C03",
   "Contracts on txtar.isMarker (and, as they are added, findFileMarker/fixNL/Parse) are discharged by SMT for every byte string: "
